@@ -104,6 +104,7 @@ def run():
         outside=["whole-tree inventory", "rayon scheduling of run_script", "--match-links --symbolic-links (excluded by the property)", "real file systems"])
     ctx = oblig.Ctx()
     prog = ctx.lib
+    oblig.install_battery(rep, ctx, ["c08_battery", "c04_battery", "c06_battery"])
     part_common.add(rep, prog, ["retention-count", "no-loss-no-dup", "atomic-subgroups", "patterns", "stale-filter", "mtime-check"], "C02", part_common.make_replayer(ctx))
     try:
         script_obligation(rep, prog)
